@@ -15,39 +15,60 @@ from .. import core
 from .. import c11_seq, c11_chains, c11_topo, c11_cont
 
 LEVEL = 'model_checking'
-RULE = ('(a) Transforms state space: bases ' + ','.join(c11_seq.BASES) + ' (Structured 1-D/2-D incl. periodic, refined, boundary and interface axes; Plain incl. mixed depth '
-        'and edge chains; Index incl. mixed references) x all operation sequences of depth<=3 over {mask, take(non-monotone index array), slice, refined(refs), edges(refs), '
-        'split-and-chain(mask, form), chain-with-sibling}; operation parameters are a fixed alphabet that is exhaustive for length<=3 and narrows with depth; in every state every element x every '
-        'tail from {c, e, cc, ce, ec, ee} is looked up, plus all chains the model can prove absent. '
-        '(b) all well-formed chains of length<=4 over SimplexChild/SimplexEdge (1-3D), TensorChild/TensorEdge1/TensorEdge2 (line^2, line x triangle), Identity, ScaledUpdim '
-        '(thorough: also inverted edges). (c) topology family (line, rectilinear 2x2, periodic, refined, hierarchical, triangle and mixed meshes, subsets; their boundaries and interfaces) x '
-        'sample schemes {gauss2, bezier2, vertex...}. (d) locate on the same family x target classes x tol/eps/skip_missing/maxdist variants x maxprocs{1,2}. '
-        '(e) References/PointsSequence: all operation sequences of depth<=3 over {take, compress, chain, repeat, product, children, edges, slice}. '
-        'non-trivial = a distinct (state, element, tail) lookup whose returned tail had to be rewritten or whose sequence is nested (depth>=1), a distinct chain that canonical/uppermost/promote '
-        'actually changes, a distinct (topology, sample, function) evaluation across at least one derived level, a distinct located target, a distinct container state of depth>=1')
-ASSUMPTIONS = ['nutils.element Reference.child_transforms/edge_transforms/child_refs/edge_refs/vertices are used as data by the models and are not under test here',
-               'two chains denote the same affine map iff they agree on the vertices and the centroid of the source reference (tolerance 1e-12, all coordinates are dyadic or thirds)',
-               'states that would violate the documented precondition of Transforms (no chain is a head of another) are not constructed',
-               'locate: geometries are affine or mildly nonlinear with Jacobian singular values in [0.5, 2.5]; a target counts as certainly-inside when it is >=0.05 (element coordinates) away from every element boundary',
+RULE = ('(a) Transforms state space: bases ' + ','.join(c11_seq.BASES) + ' (Structured 1-D/2-D incl. periodic, nrefine=1, boundary and interface axes; Plain incl. mixed depth '
+        'and edge chains; Index incl. mixed square/triangle references) x all operation sequences of depth<=3 over {mask, take(non-monotone index array), slice, refined(refs), edges(refs), '
+        'split-and-chain(mask; id+id, swapped, ref+id, id+ref, ref+ref, edg+edg), chain-with-sibling before/after}; operation parameters come from a fixed alphabet that is exhaustive for '
+        'length<=3 and narrows with depth (levels 0,2,3 quick / 0,1,2 thorough); states are deduplicated by identity of the interned object. In every state: len/iter/getitem(+negative, numpy int, '
+        'out of range)/index/contains for every element; index_with_tail for every element x every tail in {c, e, cc, ce, ec} (thorough: +ee) x every swap-equivalent spelling in which the '
+        'element\'s own items are spelled differently (quick: tails of length<=1); every chain the model can prove absent (strict heads, elements of ancestor states with disjoint lineage, alien roots). '
+        '(b) all well-formed typed chains over SimplexChild/SimplexEdge (1-3D), TensorChild/TensorEdge1/TensorEdge2 (line^2, line x triangle), Identity, ScaledUpdim: quick = length<=4 for '
+        'line, triangle, line^2, length<=3 for tetrahedron and line x triangle plus their length-4 chains without ScaledUpdim; thorough = length<=4 everywhere incl. inverted edges. '
+        '(c) topology family: bases ' + ','.join(c11_topo.BASES) + ' x volume operation sequences over {refined, refined_by(first), refined_by(last two), take(evens), slice, subset} '
+        '(quick: depth<=1 plus 8 selected pairs; thorough: all pairs) x optional {boundary, interfaces} x optional {refined, take(evens)}; samples gauss2 and bezier2 (element vertices); evaluated: own '
+        'f_index/f_coords, geom, f_index/f_coords of every ancestor topology and of the refined sibling, opposite(.) of all of these and jump(geom) on interfaces. '
+        '(d) locate: 6 (thorough 14) topologies of each base x geometry {affine, quadratic} x target sets {element-interior, +vertices and edge midpoints, +1e-7 outside, +far outside} x '
+        '{tol=1e-10, eps=1e-10, tol=1e-4&eps=1e-6, eps=.05} x skip_missing x maxdist x maxprocs{1,2} (quick: a fixed 24-call subset of the product). '
+        '(e) References/PointsSequence: bases ' + ','.join(c11_cont.REF_BASES + c11_cont.PTS_BASES) + ' x all operation sequences of depth<=3 over {take(sorted, unsorted, repeated), compress, slice(incl. reversed), '
+        'chain(self, other, other-left, reversed copy), repeat(0,2,3), product(uniform/plain, left/right), children, edges}. '
+        'non-trivial = a distinct non-empty Transforms state of depth>=1; a distinct chain that canonical/uppermost/promote actually changes; a distinct derived topology state; a distinct locate call; '
+        'a distinct non-empty container state of depth>=1')
+ASSUMPTIONS = ['nutils.element Reference.child_transforms/edge_transforms/child_refs/edge_refs/vertices/inside are used as data by the models and are not under test here',
+               'two chains denote the same affine map iff they agree on the vertices and the centroid of the source reference (tolerance 1e-12; all coordinates are dyadic or thirds)',
+               'states that would violate the documented precondition of Transforms (no chain is a head of another) are not constructed; the model decides this from the lineage of every element',
+               'the returned tail is only required to be the same affine map with the same orientation parity and well-formed dimensions (nutils returns the uppermost, canonical or literal '
+               'spelling depending on the sequence class, so no particular normal form is demanded)',
+               'lookup is exercised with every swap-equivalent spelling of a chain: all Transforms classes normalise their argument (promote/uppermost/canonical), and function evaluation on '
+               'derived topologies relies on it',
+               'for a fully periodic structured axis every integer index is a legitimate alias, so no alien index is tried there',
+               'locate: geometries are affine or mildly nonlinear with Jacobian singular values in [0.5, 2.5]; tolerance bound = max(tol, eps*Lmax)*1.001+1e-11; element-interior targets '
+               '(>=0.2 element coordinates from the boundary) must be found, everything else may raise LocateError; located points must lie in their element within max(tol,eps)/0.5',
+               'opposite(.) is only evaluated on interface topologies (structured boundaries carry opposites that point outside the domain)',
                'maxprocs=2 uses nutils.parallel fork; the located sample must satisfy the same oracle as for maxprocs=1']
 BUDGET_S = {'quick': 1500, 'thorough': 6000}
 
 
+SEQ_COST = {'s2b': 9, 's2r': 8, 's2': 8, 's2p': 6, 's2i': 6, 'p2': 5, 'p2d': 5, 'i2': 3, 'i2m': 3, 's1r': 2, 's1': 1, 's1p': 1, 'i1': 1, 'p1e': 1}
+NCHUNK = {'quick': 4, 'thorough': 6}
+
+
 def shards(tier, seed):
+    '''cheap and simple parts first (chains, containers, topology functions), then the expensive state spaces with the
+    most expensive bases leading so that the pool finishes evenly'''
     out = []
     out += c11_chains.shards(tier)
     out += c11_cont.shards(tier)
-    out += c11_topo.shards(tier)
-    out += c11_seq_shards(tier)
+    topo = c11_topo.shards(tier)
+    out += [s for s in topo if s['kind'] == 'topo']
+    heavy = [s for s in topo if s['kind'] == 'locate' and s['base'] == 'mixed2'] + [s for s in c11_seq_shards(tier) if SEQ_COST[s['base']] >= 5]
+    out += heavy
+    out += [s for s in topo if s['kind'] == 'locate' and s['base'] != 'mixed2']
+    out += [s for s in c11_seq_shards(tier) if SEQ_COST[s['base']] < 5]
     return out
-
-
-NCHUNK = {'quick': 4, 'thorough': 8}
 
 
 def c11_seq_shards(tier):
     out = []
-    for base in c11_seq.BASES:
+    for base in sorted(c11_seq.BASES, key=lambda b: -SEQ_COST[b]):
         for k in range(NCHUNK[tier]):
             out.append({'kind': 'seq', 'base': base, 'chunk': k})
     return out
@@ -72,10 +93,10 @@ def _run_seq(spec, tier, res):
             before = stats['queries'], stats['rewritten'], stats['unknown']
             S.observe(seq, model, tier, stats, S.unknown_chains(model, universe, base_model))
         except S.Mismatch as m:
-            res.violation('seq:' + m.key, 'base {} ops {}: {}'.format(base, ops, m.what), {'kind': 'seq', 'base': base, 'ops': ops})
+            res.violation('seq:' + m.key, 'base {} ops {}: {}'.format(base, ops, m.what), {'kind': 'seq', 'base': base, 'ops': ops, 'tier': tier})
             return False
         except Exception as e:
-            res.violation('seq:observe-raise:{}:{}'.format(type(e).__name__, S.seqkind(seq)), 'base {} ops {}: observation raised {!r}'.format(base, ops, e), {'kind': 'seq', 'base': base, 'ops': ops})
+            res.violation('seq:observe-raise:{}:{}'.format(type(e).__name__, S.seqkind(seq)), 'base {} ops {}: observation raised {!r}'.format(base, ops, e), {'kind': 'seq', 'base': base, 'ops': ops, 'tier': tier})
             return False
         nq = stats['queries'] - before[0] + len(model)
         res.count('evaluations', nq + stats['unknown'] - before[2])
@@ -97,7 +118,7 @@ def _run_seq(spec, tier, res):
             try:
                 r = S.apply_op(seq, model, op, sibling)
             except Exception as e:
-                res.violation('seq:op:raise:{}:{}'.format(_opkey([op]), S.seqkind(seq)), 'base {} ops {}: operation raised {!r}'.format(base, ops2, e), {'kind': 'seq', 'base': base, 'ops': ops2})
+                res.violation('seq:op:raise:{}:{}'.format(_opkey([op]), S.seqkind(seq)), 'base {} ops {}: operation raised {!r}'.format(base, ops2, e), {'kind': 'seq', 'base': base, 'ops': ops2, 'tier': tier})
                 continue
             if r is None:
                 continue
@@ -122,7 +143,7 @@ def _run_seq(spec, tier, res):
                 # same live object reached by another route: the list model must agree as well
                 res.count('traces_validated_against_impl')
                 if seen[key] != len(model2):
-                    res.violation('seq:confluence:' + S.seqkind(seq2), 'base {} ops {}: interned object reached with a different model length'.format(base, ops2), {'kind': 'seq', 'base': base, 'ops': ops2})
+                    res.violation('seq:confluence:' + S.seqkind(seq2), 'base {} ops {}: interned object reached with a different model length'.format(base, ops2), {'kind': 'seq', 'base': base, 'ops': ops2, 'tier': tier})
                 continue
             if depth + 1 < maxdepth and len(model2) <= MAXLEN[tier]:
                 explore(seq2, model2, sib2, universe2, ops2, depth + 1)
@@ -158,7 +179,7 @@ def run_shard(spec, tier, seed):
 def replay(w):
     kind = w['kind']
     if kind == 'seq':
-        r = c11_seq.run_ops(w['base'], w['ops'], 'quick')
+        r = c11_seq.run_ops(w['base'], w['ops'], w.get('tier', 'quick'))
         return None if r is None else '{}: {}'.format(*r)
     if kind == 'chain':
         return c11_chains.replay(w)
